@@ -16,6 +16,7 @@ extern u8 vf_fbytes[]; extern u32 vf_flen, vf_fpos; extern int vf_fopen_fails;
 #ifdef VF_REAL
 #include <stdio.h>
 #include <unistd.h>
+#include <stdlib.h>
 static char path[64];
 #else
 static char path[8] = "vf.sol";
@@ -52,7 +53,7 @@ void h_message(void) {
   }
   msg[MSGLEN] = 0;
 #ifdef VF_REAL
-  snprintf(path, sizeof path, "/tmp/vf_c05_%d.sol", (int)getpid());
+  { const char *td = getenv("VF_TMP"); snprintf(path, sizeof path, "%s/vf_c05_%d.sol", td ? td : "/tmp", (int)getpid()); }      /* VF_TMP: the check's scratch directory (removed at the end of the run) */
 #else
   vf_flen = 0; vf_fpos = 0; vf_fopen_fails = 0;
 #endif
@@ -102,7 +103,7 @@ void h_header(void) {
   u32 nvars = (u32)vf_ndrange(0, DIGMAX), ncons = (u32)vf_ndrange(0, DIGMAX), objno = (u32)vf_ndrange(0, DIGMAX), status = (u32)vf_ndrange(0, DIGMAX);
   msg[0] = 'm'; msg[1] = 0;
 #ifdef VF_REAL
-  snprintf(path, sizeof path, "/tmp/vf_c05_%d.sol", (int)getpid());
+  { const char *td = getenv("VF_TMP"); snprintf(path, sizeof path, "%s/vf_c05_%d.sol", td ? td : "/tmp", (int)getpid()); }      /* VF_TMP: the check's scratch directory (removed at the end of the run) */
 #else
   vf_flen = 0; vf_fpos = 0; vf_fopen_fails = 0;
 #endif
